@@ -8,9 +8,9 @@ LEAN_MODULES = ["GoaktVerif.Props.C25"]
 THEOREMS = ["GoaktVerif.C25." + t for t in [
     "unframe_frame", "frameTypeName_frame", "frameTypeName_eq_unframe",
     "proto_roundtrip", "proto_rejects_nonproto", "proto_malformed", "reg_roundtrip", "reg_rejects_unregistered",
-    "resolve_first", "resolve_none", "send_unsupported", "send_bytes",
+    "resolve_accepts", "resolve_exact_wins", "resolve_none", "send_unsupported", "send_bytes",
     "dispSerialize_first", "dispSerialize_unsupported", "dispDeserialize_sound",
-    "dispatch_roundtrip", "agree_needed", "resolveDoc_unshadowed", "C25_refuted", "C25_partial",
+    "dispatch_roundtrip", "agree_needed", "resolve_eq_doc", "C25_holds",
     "poison_roundtrip", "poison_only_magic", "terminated_roundtrip", "env_roundtrip",
     "delivery_roundtrip", "delivery_invalid", "delivery_roundtrip_wire",
     "WireLemmas.unvarint_varint", "WireLemmas.parseFields_encFields", "WireLemmas.decEnv_encEnv",
@@ -24,13 +24,13 @@ MANIFEST = {
                   "resolveSerializer, serializerDispatch.Serialize/Deserialize (proto fast path included) and the Terminated / "
                   "PoisonPill / delivery envelopes: for every table, registry, message and frame the receive path returns the "
                   "message sent whenever the chosen serializer decodes its own output and no registered serializer mis-decodes it "
-                  "(dispatch_roundtrip); the chosen entry is the first whose type test passes (resolve_first); an unsupported "
+                  "(dispatch_roundtrip); the chosen entry is the one the documented rule names — exact concrete type first, then the first "
+                  "matching interface (resolve_eq_doc, resolve_exact_wins); an unsupported "
                   "message yields an error, never bytes (send_unsupported, dispSerialize_unsupported, proto_rejects_nonproto, "
                   "delivery_invalid); frames and envelopes round-trip byte-exactly (unframe_frame, terminated_roundtrip, "
                   "poison_roundtrip, env_roundtrip, delivery_roundtrip; delivery_roundtrip_wire with a concrete protobuf wire codec whose "
                   "round trip is itself proved, WireLemmas.decEnv_encEnv) and cannot capture each other's bytes (framed_not_*, "
-                  "envelopes_disjoint). The documented rule 'exact concrete type first' is refuted for the code (C25_refuted, "
-                  "finding C25-F1) and proved under the guard shadowed=false (C25_partial).",
+                  "envelopes_disjoint). C25_holds: the full dispatch statement, with the documented selection rule.",
     "level_note": "PARTIAL: protobuf, CBOR (fxamacker) and JSON (sonic) are parameters; their round-trip and mutual-rejection laws "
                   "are hypotheses (ProtoLaw, RegLaw, EnvLaw, Agree) sampled by the differential on generated values, not proved. "
                   "The sampling shows Agree is FALSE between CBORSerializer and JSONSerializer on one-digit integers (finding C25-F2). "
@@ -307,7 +307,7 @@ def gen_cases(rng, tier):
     for _ in range(40 if q else 800):
         cases.append("denv " + gen_env(rng))
     # --- family A
-    cases.append("dsp 1 xr/S1:1111:raw:h:r send:r:7a send:v0")           # C25-F1 witness (seeded proto entry shadows the exact one)
+    cases.append("dsp 1 xr/S1:1111:raw:h:r send:r:7a send:v0")           # former C25-F1 witness (fixed 5e999f4): must choose S1
     cases.append("dsp 0 iAny/S1:1111:raw:h:r,x0/S2:1111:raw:h:r send:v0 send:v1")
     for _ in range(150 if q else 4000):
         cases.append(gen_dsp(rng))
@@ -390,8 +390,7 @@ def oracle(case, impl, judge):
 def classify(case, impl, why):
     why = why or ""
     f = case.split()
-    if why.startswith("bad chosen-shadowed"):
-        return "C25-F1"
+    # "bad chosen-shadowed" was C25-F1 (fixed in /repo 5e999f4): no longer a known finding, so it is a VIOLATION again
     if f[0] == "real" and why.startswith("bad roundtrip") and f[2].startswith("int:"):
         v = int(f[2][4:])
         labels = f[1].split(",")
